@@ -159,7 +159,8 @@ class Driver:
                 if how == "next":
                     v = next(it)
                 elif how == "send":
-                    s = object()
+                    env.nsend = getattr(env, "nsend", 0) + 1
+                    s = object() if env.nsend % 3 else ValueError("an exception instance sent as an ordinary value")
                     env.sent[g] = s
                     v = it.send(s)
                 elif how == "throw":
